@@ -960,6 +960,11 @@ pub async fn start_server(cfg: &ConnCfg, app: Rc<App>) -> Conn {
 /// Start a client role: the library connects over the in-memory transport, the peer answers
 /// CONNACK, the dispatcher is started with the instrumented services.
 pub async fn start_client(cfg: &ConnCfg, app: Rc<App>) -> Conn {
+    start_client_opts(cfg, app, true).await
+}
+
+/// `send_connack = false`: the peer does not answer the CONNECT (the caller writes what it wants)
+pub async fn start_client_opts(cfg: &ConnCfg, app: Rc<App>, send_connack: bool) -> Conn {
     let (peer_side, endpoint_side) = IoTest::create();
     let ver = cfg.role.ver();
     let mut peer = Peer::new(peer_side, ver, app.clone(), cfg.initial_write_budget);
@@ -1078,7 +1083,9 @@ pub async fn start_client(cfg: &ConnCfg, app: Rc<App>) -> Conn {
             break;
         }
     }
-    peer.send(&cfg.peer_connack());
+    if send_connack {
+        peer.send(&cfg.peer_connack());
+    }
     let mut c = Conn { role: cfg.role, app, peer, cfg: cfg.clone() };
     c.settle().await;
     let _ = started;
